@@ -90,7 +90,20 @@ func (c *Ctx) normalize(overlay map[string][]byte) (map[string][]byte, []string)
 		cur[k] = v
 	}
 	changed := false
+	closuresDone := false
 	for round := 0; round < 12; round++ {
+		if !closuresDone {
+			// local closures called as statements, first in the tree as written and once
+			// more after the helpers were inlined
+			if ch, l := c.inlineLocalClosures(cur); ch {
+				changed = true
+				log = append(log, l...)
+				c.fns = map[ast.Node]*Fn{}
+				c.nfuncs = map[*Fn]bool{}
+				c.load("", cur)
+			}
+			closuresDone = true
+		}
 		decls := c.declaredFuncs()
 		newFns := map[string]*ast.FuncDecl{}
 		for k, fd := range decls {
